@@ -657,6 +657,14 @@ func (cs *ContractSet) ParseFile(path, pkgPath string) error {
 			if cur != nil {
 				cur.LazySpecs = true
 			}
+		case "nocalls":
+			if cur != nil {
+				cur.NoCalls = true
+			}
+		case "allowcalls":
+			if cur != nil {
+				cur.Allow = append(cur.Allow, strings.Fields(it.rest)...)
+			}
 		case "definitional":
 			if cur != nil {
 				cur.Definitional = true
